@@ -66,7 +66,11 @@ class Lexer(object):
 
     @TOKEN(r"[\-\+]?\d+")
     def t_INT(self, t):
-        t.value = int(t.value)
+        try:
+            t.value = int(t.value)
+        except ValueError:
+            # Python refuses to convert integers with more than `sys.get_int_max_str_digits()` digits
+            raise SyntaxError("Integer with too many digits at position {0}".format(t.lexpos))
         return t
 
     @TOKEN(r'("(\\.|[^"\\])*")|(\'(\\.|[^\'\\])*\')')
